@@ -218,3 +218,71 @@ def special_inputs(rng, quick=True):
         junk = bytes(rng.choice(b"GET POSTHTP/1.\r\n: abc%?#=&") for _ in range(n))
         out.append(("random-tokens", junk))
     return out
+
+
+def _with_length(r, body):
+    r = r.copy()
+    r.body = body
+    r.headers = [(k, (str(len(body)) if (k if isinstance(k, str) else k.decode("latin-1")).lower() == "content-length" else v)) for k, v in r.headers]
+    return r
+
+
+def bombs(valid, size=BUF - 100):
+    """'repetition bombs' that stay inside one read of `size` bytes: one structural unit of a valid request - a body line,
+    a multipart part (full and minimal), a form pair, a range spec, a path segment, a header line, a header-value element -
+    repeated as often as fits.  Deterministic; yields (kind, element, raw)."""
+    from . import mutate
+    out = []
+    seen_routes = set()
+    valid = list(valid)
+    for r in list(valid):
+        # the same multipart form with the shortest possible boundary: more parts fit into one read
+        ct = dict((k if isinstance(k, str) else k.decode("latin-1"), v) for k, v in r.headers).get("Content-Type", "")
+        if isinstance(ct, str) and "boundary=" in ct and r.route == "form-multipart":
+            b = ct.split("boundary=", 1)[1]
+            r2 = _with_length(r, r.body.replace(b.encode(), b"b"))
+            r2.headers = [(k, (v.replace(b, "b") if k == "Content-Type" else v)) for k, v in r2.headers]
+            r2.route = "form-multipart-short-boundary"
+            valid.append(r2)
+    for r in valid:
+        if r.route in seen_routes:
+            continue
+        seen_routes.add(r.route)
+        head_len = len(r.bytes()) - len(r.body)
+        room = max(200, size - head_len - 8)
+        if r.body:
+            for kind, m in mutate.repetitions(r.body, (room,), seps=(b"&", b";", b"=")):
+                if len(m) <= room + 400:
+                    out.append(("bomb-body-" + kind.split(":")[0], "body", _with_length(r, m).bytes()))
+        t = r.target if isinstance(r.target, str) else None
+        if t is not None:
+            room_t = max(50, size - len(r.bytes()) - 8)
+            path, q = (t.split("?", 1) + [""])[:2] if "?" in t else (t, "")
+            seg = "/" + (path.strip("/").split("/")[0] or "a")
+            for name, unit, build in (("path-segment", seg, lambda u, n: u * n + ("?" + q if q else "")),
+                                      ("dot-segment", "/.", lambda u, n: u * n + path),
+                                      ("dotdot-segment", "/a/..", lambda u, n: u * n + path),
+                                      ("escape", "%41", lambda u, n: path + u * n),
+                                      ("query-pair", "&a=b", lambda u, n: path + "?x=1" + u * n),
+                                      ("query-amp", "&", lambda u, n: path + "?" + u * n),
+                                      ("fragment-hash", "#", lambda u, n: path + u * n)):
+                r2 = r.copy()
+                r2.target = build(unit, max(2, room_t // len(unit)))
+                out.append(("bomb-target-" + name, "target", r2.bytes()))
+        for i, (k, v) in enumerate(r.headers):
+            ks = k if isinstance(k, str) else k.decode("latin-1")
+            vs = v if isinstance(v, str) else v.decode("latin-1")
+            room_h = max(50, size - len(r.bytes()) - 8)
+            for sep in (",", ";", "=", " "):
+                if sep in vs or ks.lower() in ("range", "accept", "origin", "content-type"):
+                    parts = vs.split(sep)
+                    el = parts[-1] if parts[-1] else "x"
+                    n = max(2, room_h // (len(el) + len(sep)))
+                    r2 = r.copy()
+                    r2.headers[i] = (k, sep.join(parts + [el] * n))
+                    out.append(("bomb-header-element:%s:%r" % (ks.lower(), sep), "hvalue", r2.bytes()))
+            line = len(ks) + len(vs) + 4
+            r2 = r.copy()
+            r2.headers = r.headers[:i] + [(k, v)] * max(2, room_h // line) + r.headers[i + 1:]
+            out.append(("bomb-header-line:%s" % ks.lower(), "dup", r2.bytes()))
+    return out
